@@ -10,7 +10,12 @@ pub struct OracleFail {
     pub line: usize,
     pub oracle: String,
     pub msg: String,
+    /// the case is in the side program file (programs that are not compared with the model)
+    pub side: bool,
 }
+/// keys >= TWIN denote a second node OBJECT carrying key `k - TWIN` (C15: programs with two live nodes of one key;
+/// nodes are keys in the model, so these programs are compared between the two implementations only)
+pub const TWIN: usize = 1_000_000;
 
 /// set once enough oracle failures were recorded: generators stop producing cases
 pub static STOP: std::sync::atomic::AtomicBool = std::sync::atomic::AtomicBool::new(false);
@@ -108,6 +113,8 @@ pub struct Ctx {
     pub oracles: Vec<String>,
     pub counters: BTreeMap<String, u64>,
     pub samples: Vec<String>,
+    /// programs that are not compared with the model (written to x<i>.prog)
+    pub side_prog: Vec<String>,
     /// oracles are off while this is set (history replay inside exhaustive exploration)
     pub quiet: bool,
     /// C17: schedule prefix forced on the next `conc` request; decisions and outcome of the last one
@@ -130,7 +137,7 @@ impl Ctx {
             STOP.store(true, std::sync::atomic::Ordering::SeqCst);
         }
         if n < FAIL_CAP + 16 {
-            self.fails.push(OracleFail { case: case.into(), line, oracle: oracle.into(), msg });
+            self.fails.push(OracleFail { case: case.into(), line, oracle: oracle.into(), msg, side: false });
         }
     }
 }
@@ -246,9 +253,14 @@ macro_rules! flavour_mod {
 
             pub struct St {
                 pub nodes: Vec<N>,
+                /// second node objects with an already used key (addressed as TWIN + key)
+                pub twins: Vec<N>,
             }
             impl St {
                 pub fn node(&self, k: usize) -> &N {
+                    if k >= TWIN {
+                        return self.twins.iter().find(|n| *n.key() == k - TWIN).expect("unknown twin in program");
+                    }
                     self.nodes.iter().find(|n| *n.key() == k).expect("unknown key in program")
                 }
                 /// a handle of node `k` obtained the way `via` says (C03: handle independence)
@@ -301,6 +313,7 @@ macro_rules! flavour_mod {
                 pub fn lists(&self) -> Lists {
                     self.nodes
                         .iter()
+                        .chain(self.twins.iter())
                         .map(|n| {
                             let (out, inn) = lists_of(n);
                             NodeLists { key: *n.key(), out, inn }
@@ -368,7 +381,7 @@ macro_rules! flavour_mod {
                         OpRes::Unit
                     }
                     EdgeOp::TryConnect(u, v, e) => res_unit(st.handle(u, via).try_connect(&st.handle(v, via), e)),
-                    EdgeOp::Disconnect(u, v) => res_val(st.handle(u, via).disconnect(&v)),
+                    EdgeOp::Disconnect(u, v) => res_val(st.handle(u, via).disconnect(&(v % TWIN))),
                     EdgeOp::Isolate(u) => {
                         st.handle(u, via).isolate();
                         OpRes::Unit
@@ -378,7 +391,7 @@ macro_rules! flavour_mod {
 
             /// executes the body of one case; returns false if the case was cut (panic/deadlock)
             pub fn exec_case(case: &str, lines: &[String], ctx: &mut Ctx) -> bool {
-                let mut st = St { nodes: vec![] };
+                let mut st = St { nodes: vec![], twins: vec![] };
                 let mut ext = crate::exec_ext::$m::Ext::default();
                 let quiet_until: usize = case.split(' ').find_map(|t| t.strip_prefix("quiet=")).and_then(|x| x.parse().ok()).unwrap_or(0);
                 for (li, raw) in lines.iter().enumerate() {
@@ -465,6 +478,10 @@ macro_rules! flavour_mod {
                     } else {
                         let r = catch_unwind(AssertUnwindSafe(|| match t[0] {
                             "new" => {
+                                if p(1) >= TWIN {
+                                    st.twins.push(N::new(p(1) - TWIN, t[2].parse::<i64>().unwrap()));
+                                    return "ok".to_string();
+                                }
                                 st.nodes.push(N::new(p(1), t[2].parse::<i64>().unwrap()));
                                 if SYNC {
                                     // learn the address of this node's lock from one read request
